@@ -17,6 +17,18 @@ NA = {
 
 # property -> (level, text, note, technique, design_ref)
 CLAIMED = {
+ "C02": ("exploration",
+   "same simulated histories as C01 with undo 25% / redo 20% and bursts; after every redo the snapshot must equal the one the history-cursor model recorded after the original operation; can_undo/can_redo and the hook-H1 stack lengths must follow the cursor; a new operation after partial undo must empty the redo list. Sampling, not proof.",
+   "as C01; a run in which an *undo* fails to restore is left to C01 (run abandoned, counted in evidence)",
+   "deterministic simulation: seeded history search + history-cursor reference model", "6 C02"),
+ "C03": ("exploration",
+   "primary session plus 1-2 follower sessions (other hash seeds) in one process; the scheduler cuts the outgoing diff queue into batches (flush after every event / p=0.5 / p=0.1 / only at the end) and delivers them in order with a drawn lag; at every quiescent point and after a final flush+drain the followers' observable snapshots must equal the primary's and apply_external_diffs must have returned Ok. Loss, duplication and reordering are not injected: the statement assumes in-order exactly-once delivery.",
+   "bounds of DESIGN 2.2; followers use the primary's language (it is per-user state the queue does not carry)",
+   "deterministic simulation: seeded schedule of batch cuts and deliveries, convergence invariant at quiescence", "6 C03"),
+ "C04": ("fault_enumeration",
+   "fault injection at the API seam: a table of 86 (operation, invalid-argument class) entries (DESIGN Appendix A) is injected at random points of simulated histories (empty and non-empty undo/redo lists); whenever a call returns Err the observable snapshot and the undo/redo stack lengths (hook H1) must be unchanged. Every table entry is injected and rejected many times per run of the check (counts in evidence).",
+   "the table enumerates invalid-argument classes, the states they are injected in are sampled; 'unchanged' = observable snapshot of DESIGN 3 plus stack lengths",
+   "deterministic simulation with fault injection: rejected calls at arbitrary points of a history, before/after comparison", "6 C04 + Appendix A"),
  "C01": ("exploration",
    "seeded deterministic simulation of editing histories (swarm-selected operation families, 3-40 events, undo/redo interleaved, hash seed and clock owned by the simulator) checked event by event against a history-cursor reference model over the observable snapshot; every violation is minimised and replays from a file. Sampling, not proof.",
    "bounds of DESIGN 2.2; 'observable' = the snapshot of DESIGN 3; open genuine defects are listed in known_findings.json and reported as KNOWN-FINDING",
